@@ -1,0 +1,33 @@
+package fsutil
+
+import (
+	"fmt"
+	"os"
+	"path/filepath"
+	"time"
+)
+
+// WriteFileAtomic writes data to a temporary file in tmpDir and renames it to path,
+// so path holds either its previous content or data, never a truncated or half-written file.
+// tmpDir must be on the same file system as path.
+func WriteFileAtomic(tmpDir, path string, data []byte) error {
+	tmpPath := filepath.Join(tmpDir, fmt.Sprintf("tmp-%d-%d", os.Getpid(), time.Now().UnixNano()))
+	f, err := os.OpenFile(tmpPath, os.O_WRONLY|os.O_CREATE|os.O_EXCL, 0666)
+	if err != nil {
+		return err
+	}
+	if _, err := f.Write(data); err != nil {
+		f.Close()
+		os.Remove(tmpPath)
+		return err
+	}
+	if err := f.Close(); err != nil {
+		os.Remove(tmpPath)
+		return err
+	}
+	if err := os.Rename(tmpPath, path); err != nil {
+		os.Remove(tmpPath)
+		return err
+	}
+	return nil
+}
